@@ -36,6 +36,14 @@ def real_api(inv, routes, extra_roots):
     def inv_conns(iwd):
         return sorted(f"{s.component}:{s.port}>{b}:{q}" for b, ports in iwd.items() for q, s in ports.items())
 
+    # the input-to-output wiring built from component configurations (name + inputs), handed over as a list and as a
+    # ONE-SHOT iterable (the parameter is an Iterable): both must give the connections of `inv`, unconnected components kept
+    class _Cfg:
+        def __init__(self, name, inputs):
+            self.name, self.inputs = name, inputs
+    cfgs = [_Cfg(c, {q: ComponentPort(*s_) for q, s_ in ports.items()}) for c, ports in inv.items()]
+    from_cfg = {"list": InverseWiring.from_component_configs(cfgs), "generator": InverseWiring.from_component_configs(c for c in cfgs),
+                "iterator": InverseWiring.from_component_configs(iter(cfgs))}
     comps = sorted(er.components)
     out = {
         "conns": conns(w), "keys": sorted(w.keys()),
@@ -49,6 +57,11 @@ def real_api(inv, routes, extra_roots):
         "dependants": [[c, sorted(er.dependants(c))] for c in sorted(set(comps) | set(extra_roots))],
         "routes": [sorted([b, sorted([q, v] for q, v in ch.items())] for b, ch in er.route(r["src"], dict((p, v) for p, v in r["changes"])).items()) for r in routes],
     }
+    cfg_shape = []
+    for how, iwc in from_cfg.items():
+        if inv_conns(iwc) != inv_conns(iw) or sorted(iwc.keys()) != sorted(iw.keys()):
+            cfg_shape.append([f"from_component_configs({how})", "inverse wiring", f"{inv_conns(iwc)} / {sorted(iwc.keys())} vs {inv_conns(iw)} / {sorted(iw.keys())}"[:300]])
+            break
     # the same connections handed over as a Wiring in other, equally valid shapes must give the same router:
     # (a) the Wiring derived from the inverse wiring, (b) only sources as keys (sinks appear as wire targets only),
     # (c) with additional declared-but-unwired output ports (empty sets) on components that also have a wired port,
@@ -101,7 +114,7 @@ def real_api(inv, routes, extra_roots):
                 break
     except Exception as e:
         shape.append(["second-router-on-routed-wiring", "raised", f"{type(e).__name__}:{e}"])
-    out["shape"] = shape
+    out["shape"] = shape + cfg_shape
     return out
 
 
